@@ -119,6 +119,8 @@ class World:
             out = tuple[tuple(self.typ(x) for x in spec["items"])]
         elif k == "union":
             out = typing.Union[tuple(self.typ(x) for x in spec["items"])]
+        elif k == "iter":
+            out = typing.Iterator[self.typ(spec["item"])]
         else:
             raise HarnessError(f"unknown annotation kind {k}")
         self.anns[aid] = out
@@ -377,6 +379,46 @@ class Interp:
             return "decorated"
         except BaseException as e:
             return exc_outcome(e)
+
+    def op_pickle(self, op, path):
+        import copy
+        import pickle
+
+        ann = self.world.ann(op["ann"])
+        try:
+            how = op.get("how", "pickle")
+            if how == "pickle":
+                out = pickle.loads(pickle.dumps(ann))
+            elif how == "copy":
+                out = copy.copy(ann)
+            else:
+                out = copy.deepcopy(ann)
+            return "ok" if out is not None else "none"
+        except BaseException as e:
+            return exc_outcome(e)
+
+    def op_hook(self, op, path):
+        """install_import_hook + first import of a module (whose body is a call-out) + uninstall."""
+        import importlib
+        import sys
+
+        name = op["module"]
+        sys.modules.pop(name, None)
+        try:
+            mgr = jaxtyping.install_import_hook(name, op.get("checker"))
+            try:
+                if op.get("with", True):
+                    with mgr:
+                        importlib.import_module(name)
+                else:
+                    importlib.import_module(name)
+            finally:
+                mgr.uninstall()
+            return "imported"
+        except BaseException as e:
+            return exc_outcome(e)
+        finally:
+            sys.modules.pop(name, None)
 
     def op_toggle(self, op, path):
         try:
